@@ -450,9 +450,85 @@ Definition wd_execute (fl : flags) (w : wcfg) (s : st) : st * list event :=
   let evs := wd_check w s in
   (fold_left (fun s e => abort_if_active fl s (fst e)) evs s, evs).
 
-(* CoordinationSystem.shutdown (priority boosts are not modelled) *)
+(* CoordinationSystem.shutdown (clear_all afterwards finds no active operation to restore) *)
 Definition shutdown (fl : flags) (s : st) : st :=
   fold_left (abort_if_active fl) (active s) s.
+
+(* ------------------------------------------------------------------ *)
+(* priority.py: PriorityInheritance.check_and_boost, which
+   CoordinationSystem.run_maintenance runs right before Watchdog.execute.
+   It rewrites OperationContext.priority of ACTIVE operations only (the
+   priority a LATER acquisition is made with); active_boosts only remembers
+   the original priorities (never read back by run_maintenance, and
+   shutdown's clear_all runs after every operation was aborted), so it is
+   not part of the state here. *)
+
+Definition c_boost (c : ctx) (p : Z) : ctx :=
+  mkCtx p (c_phase c) (c_phase_at c) (c_acq c) (c_racq c) (c_exec c) (c_valid c) (c_created c) (c_exempt c).
+
+(* controller.active_operations.get(o) *)
+Definition live_ctx (s : st) (o : Z) : option ctx :=
+  if is_active s o then get_ctx s o else None.
+
+(* DependencyGraph.get_blocking_chain(agent)[1:]: follow the FIRST recorded edge
+   until a node without edges or an already visited node.  [None] = out of fuel
+   (excluded by c14_boost_fuel_suffices). *)
+Fixpoint pi_walk (fuel : nat) (g : graph) (cur : Z) (visited : list Z) : option (list Z) :=
+  match fuel with
+  | O => None
+  | S f =>
+      match succs g cur with
+      | [] => Some []
+      | (b, _) :: _ =>
+          if memz b visited then Some []
+          else match pi_walk f g b (b :: visited) with
+               | Some l => Some (b :: l)
+               | None => None
+               end
+      end
+  end.
+
+Definition pi_tail (g : graph) (a : Z) : option (list Z) :=
+  pi_walk (S (length g)) g a [a].
+
+(* the inner loop of check_and_boost over chain[1:] -> new boosts (operation, boosted priority) *)
+Fixpoint pi_chain (s : st) (maxp : Z) (ch : list Z) : st * list (Z * Z) :=
+  match ch with
+  | [] => (s, [])
+  | o :: rest =>
+      match live_ctx s o with
+      | None => pi_chain s maxp rest
+      | Some c =>
+          if Z.ltb (c_prio c) maxp then
+            let '(s2, nb) := pi_chain (put_ctx s o (c_boost c maxp)) maxp rest in
+            (s2, (o, maxp) :: nb)
+          else pi_chain s (Z.max maxp (c_prio c)) rest
+      end
+  end.
+
+(* the outer loop: for waiter_id in list(graph.edges.keys()) *)
+Fixpoint pi_waiters (g : graph) (keys : list Z) (s : st) : option (st * list (Z * Z)) :=
+  match keys with
+  | [] => Some (s, [])
+  | wt :: rest =>
+      match live_ctx s wt with
+      | None => pi_waiters g rest s
+      | Some c =>
+          match pi_tail g wt with
+          | None => None
+          | Some ch =>
+              let '(s1, nb1) := pi_chain s (c_prio c) ch in
+              match pi_waiters g rest s1 with
+              | Some (s2, nb2) => Some (s2, nb1 ++ nb2)
+              | None => None
+              end
+          end
+      end
+  end.
+
+(* PriorityInheritance.check_and_boost(controller) *)
+Definition pi_boost (s : st) : option (st * list (Z * Z)) :=
+  pi_waiters (edges s) (map fst (edges s)) s.
 
 (* ------------------------------------------------------------------ *)
 (* the step API used by histories, and by scripted work functions       *)
@@ -466,7 +542,10 @@ Inductive fop :=
 | FKill (o : Z)                      (* system.kill_operation(o) *)
 | FWatchdog                          (* system.watchdog.execute(controller) *)
 | FShutdown
-| FTick (d : Z).
+| FTick (d : Z)
+| FMaintain                          (* system.run_maintenance(): check_and_boost, then watchdog.execute *)
+| FAdvance (o : Z)                   (* ctx = active_operations.get(o); controller.advance(ctx), default checkpoints *)
+| FPopWaiter (r : Z).                (* controller.resources[r].pop_next_waiter() *)
 
 Definition lres_code (r : lres) : Z :=
   match r with LAcquired => 0 | LBlocked => 1 | LReentrant => 2 | LPreempted => 3 end.
@@ -500,6 +579,26 @@ Definition fstep (fl : flags) (w : wcfg) (s : st) (a : fop) : st * list Z :=
       (s', flat_map (fun e : event => [fst e; reason_code (snd e)]) evs)
   | FShutdown => (shutdown fl s, [0])
   | FTick d => (set_now s (now s + d), [0])
+  | FMaintain =>
+      (* [number of new boosts; (operation, boosted priority)*; (operation, reason)*]; [-7] = out of fuel *)
+      match pi_boost s with
+      | None => (s, [-7])
+      | Some (s1, nb) =>
+          let '(s', evs) := wd_execute fl w s1 in
+          (s', Z.of_nat (length nb) :: flat_map (fun b : Z * Z => [fst b; snd b]) nb
+                 ++ flat_map (fun e : event => [fst e; reason_code (snd e)]) evs)
+      end
+  | FAdvance o =>
+      if is_active s o then let '(s', b) := advance s o CpDefault in (s', [b2z b]) else (s, [-1])
+  | FPopWaiter r =>
+      match get_lock s r with
+      | None => (s, [-1])
+      | Some l =>
+          match l_wait l with
+          | [] => (s, [0])
+          | x :: t => (put_lock s r (mkLock (l_owner l) (l_prio l) (l_hold l) (l_preempt l) t), [1; fst x; snd x])
+          end
+      end
   end.
 
 (* ------------------------------------------------------------------ *)
@@ -510,8 +609,9 @@ Inductive wact := WProbe | WDo (a : fop).
 
 (* what a CHECKPOINT callback may do besides returning its verdict: the ways an
    operation is ended from outside (manual kill of any operation, a watchdog
-   pass, shutdown), time passing, and looking at the locks *)
-Inductive cact := CProbe | CKill (o : Z) | CWatchdog | CShutdown | CTick (d : Z).
+   pass, a maintenance pass = priority inheritance + watchdog, shutdown), time
+   passing, and looking at the locks *)
+Inductive cact := CProbe | CKill (o : Z) | CWatchdog | CShutdown | CTick (d : Z) | CMaintain.
 Definition cact_wact (a : cact) : wact :=
   match a with
   | CProbe => WProbe
@@ -519,6 +619,7 @@ Definition cact_wact (a : cact) : wact :=
   | CWatchdog => WDo FWatchdog
   | CShutdown => WDo FShutdown
   | CTick d => WDo (FTick d)
+  | CMaintain => WDo FMaintain
   end.
 
 Record script := mkScript {
